@@ -72,4 +72,5 @@ def run(tier, seed, procs):
     hs, runs, steps = (8, 30, 20) if quick else (16, 800, 50)
     cols += drive.pool_map(history.shard_history,
                            [(MOD, runs, steps, seed * 1000 + 500 + i, {}) for i in range(hs)], procs)
+    cols += drive.pool_map(drive.shard_enum_stale, [(MOD, 'story', i, 2 if quick else 3) for i in range(11)], procs)
     return drive.merge_all(PROP, cols)
